@@ -149,6 +149,16 @@ GETTERS = {
 }
 
 
+_SHARED = {}
+
+
+def _new_shared():
+    """Objects a user defines once and uses in several branches of one program (a Variable is
+    a description of a quantity: the same object is passed wherever that quantity is used)."""
+    import lena.variables
+    _SHARED["var"] = lena.variables.Variable("sh", GETTERS["idg"], type="coordinate", unit="mm")
+
+
 def build_mut(mr):
     import lena.context
     import lena.flow
@@ -157,6 +167,8 @@ def build_mut(mr):
     k = mr[0]
     if k == "dapp":
         return m_dapp
+    if k == "svar":
+        return _SHARED["var"]
     if k == "dinc":
         return m_dinc
     if k == "cset":
@@ -184,8 +196,8 @@ def build_mut(mr):
 
 
 def rand_mut(rng, allow_count=True):
-    k = rng.choice(["dapp", "dinc", "cset", "cset", "cdeep", "cdeep", "var", "updctx", "mkfn"] +
-                   (["count"] if allow_count else []))
+    k = rng.choice(["dapp", "dinc", "cset", "cset", "cdeep", "cdeep", "var", "updctx", "mkfn",
+                    "svar"] + (["count"] if allow_count else []))
     if k == "cset":
         return ["cset", rng.choice(["a", "b", "i"])]
     if k == "var":
@@ -222,6 +234,10 @@ def build_branch_acc(ar, fr=None):
         pre, el = [m_first], lena.structures.Histogram([0, 2, 4, 8])
     elif k == "vmc":
         pre, el = [m_first], lena.math.VarianceMeanCount(corrected=False, pass_on_empty=True)
+    elif k == "sibshared":
+        # bins along the program's shared Variable
+        inner = lena.math.Sum() if ar[1] == "sum" else lena.structures.Histogram([0, 5, 10])
+        pre, el = [m_first], lena.structures.SplitIntoBins(inner, _SHARED["var"], [0, 2, 4, 8])
     else:
         raise AssertionError(ar)
     if fr is not None:
@@ -246,6 +262,8 @@ def _rand_branch(rng, btype, stops=False):
     if btype in ("fc", "fr"):
         b["acc"] = rng.choice([["sum"], ["mean"], ["countfc", "n"], ["store", 1], ["store", 0],
                                ["store", 1], ["hist"], ["vmc"]])
+        if btype == "fc" and rng.random() < 0.15:
+            b["acc"] = ["sibshared", rng.choice(["sum", "hist"])]
         # Count in the pre part of a fill sequence works through fill_into
     if btype == "fr":
         b["fr"] = [rng.randint(1, 3), rng.random() < 0.5]
@@ -644,6 +662,7 @@ def make_split(kind, branches, idxs, bufsize):
     import lena.flow
     if kind == "zip-requests":
         kind = "zip-request"
+    _new_shared()
     if kind.startswith("split"):
         seqs = []
         for j in idxs:
@@ -959,3 +978,5 @@ MAX_PER_MECH = 4   # the worker keeps at most 200 violations: one mechanism must
 
 
 RULE += (' Run-driven Splits also contain Source branches and fill branches that stop (Slice through fill_into) after mutating their block; a fifth of the flows carry contexts of class lena.context.Context; part (b) includes Vectorize over multi-result components and Mean over sum sequences that yield several values.')
+RULE += (' Branches of one program also share one typed Variable object (as an element and as the '
+         'argument variable of a SplitIntoBins accumulator in a fill/compute branch).')
